@@ -29,7 +29,14 @@ META = {
              "time indexes (CloneAndDeleteMatching), close+reload, and reads. ShiftMatching on VALUE indexes is not driven: it goes "
              "through GetBeacon, whose extracted facts getBeaconServesAllValueTypes=no / getBeaconBuildsRequestedType=no say it serves "
              "only int64/float64/string value types and always builds them as int64 — C11's subject. A ShiftMatching count on a time "
-             "index is always 0 (=all in the window): a count that cuts a run of equal timestamps leaves the choice to the sort."),
+             "index is always 0 (=all in the window): a count that cuts a run of equal timestamps leaves the choice to the sort. "
+             "Stated edges: a negative From reads from the start (pinned statement of GetTreasuresByBeacon; generated); a negative Limit is "
+             "outside the statement; window bounds are arbitrary instants (int64 wrap modelled, far-past / far-future generated), stored "
+             "timestamps are what UnixNano makes of the request's (wrap64 in the model; the generator stays inside 1970..1970+9s). Forced "
+             "schedules: two first readers (hook beacon.build), a shift that loses a claim between selection and delete (hook "
+             "shift.selected; the general claim race is covered by one closed witness, not by a theorem over all schedules). Not "
+             "driven: the other Increment variants and Uint32SlicePush (same SaveFunction path, content types without a value index "
+             "of their own), PatchMeta.SetUpdatedAt / SetCreatedAt (server clock)."),
     "design_ref": "§8 C07",
 }
 
@@ -39,6 +46,8 @@ FINDINGS = {
     "C07-value-update-stale": "an update that changes the value of an indexed record leaves the built value index unsorted until the next insert",
     "C07-value-insert-wrong-comparator": "inserting into an already built non-int64 value index re-sorts with the int64 comparator, which fails: the new record stays appended at the end",
     "C07-first-readers-race": "buildBeacon raises `initialized` before it fills and sorts the slice: the second of two concurrent first readers of an index is answered from the empty slice",
+    "C07-claim-loser-dropped": "a shift that finds a selected record not wanted any more (changed between its selection pass and its deletes) does not put it back: the record stays out of the index it was selected from",
+    "C07-window-bound-wraps": "findTimeRangeBounds converts window bounds with UnixNano(), which wraps outside the years 1677-2262: ToTime = 9999-12-31 becomes negative and the read returns nothing",
     "C07-expire-cleared-refiled": "the expiration branch of SaveFunction re-files a record whose expiry was just cleared: it stays in the built expiration index under key 0",
     "C07-patch-expired-partial-reindex": "PatchExpired hands only part of its selection back to the ascending expiration index: a patched, still expired record loaded from disk drops out of it",
     "C07-value-index-mixed-types": "the single shared value index holds records of every content type: a value read returns records of other types / in the order of whichever type built it",
@@ -98,6 +107,22 @@ class Shadow:
         elif e != "-" and int(e) != 0:
             r["expire"] = int(e)
         return "patched"
+
+    def patch_create(self, k, e):
+        """PatchTreasures with CreateIfNotExist: a missing / void key becomes a body whose counter is the increment"""
+        r = self.recs.get(k)
+        if r is not None and r["t"] not in ("void",):
+            return self.patch(k, e)
+        exp = 0 if e in ("-", "clear") else int(e)
+        if r is None:
+            self.recs[k] = {"t": "bytes", "v": 1, "created": 0, "updated": 0, "expire": exp}
+        else:
+            r["t"], r["v"] = "bytes", 1
+            if e == "clear":
+                r["expire"] = 0
+            elif exp:
+                r["expire"] = exp
+        return "created"
 
     def attr(self, idx, k):
         """sort attribute of key k under index idx, or None when the record does not carry it"""
@@ -179,6 +204,7 @@ class Hist:
         self.insert_after_value_read = False
         self.race_line = False               # the line being judged is the second reader of a `race`
         self.value_read_over_mixed = False   # a value read happened while a record of another type was alive
+        self.claim_raced = False             # a held shift was released in this case
         self.i64_build_failed = False        # …an int64 one: SortByValueInt64 fails and leaves the slices filled, unflagged
         self.patchexp = False                # an expired-patch ran (this line included)
 
@@ -229,6 +255,11 @@ def symptom(fid, q, keys, sh, hist):
         return idx == "created" and clean and bool(hist.time_updates["created"])
     if fid == "C07-value-update-stale":
         return idx in VALUE_TYPES and clean and bool(hist.value_updates)
+    if fid == "C07-claim-loser-dropped":
+        return clean and hist.claim_raced
+    if fid == "C07-window-bound-wraps":
+        out = lambda b: b is not None and not (-2**63 <= b <= 2**63 - 1)
+        return idx in TIME and (out(q[4]) or out(q[5])) and clean
     if fid == "C07-expire-cleared-refiled":
         return idx == "expire" and nodup and live and any(sh.recs[k]["expire"] == 0 for k in keys)
     if fid == "C07-patch-expired-partial-reindex":
@@ -242,7 +273,7 @@ def symptom(fid, q, keys, sh, hist):
 
 def parse_q(f):
     opt = lambda s: None if s == "-" else int(s)
-    return (f[1], f[2] == "asc", int(f[3]), int(f[4]), opt(f[5]), opt(f[6]))
+    return (f[1], f[2] == "asc", max(0, int(f[3])), int(f[4]), opt(f[5]), opt(f[6]))   # a negative offset reads from the start
 
 
 def judge(c):
@@ -258,6 +289,7 @@ def judge(c):
     n = max(len(c.ops), len(c.impl), len(c.model))
     pending_vt, pending_mixed, pending_shift = None, False, False
     pending_pexp, pending_del = None, None
+    held_v = None
     for i in range(n):
         op = c.ops[i] if i < len(c.ops) else ""
         impl = c.impl[i] if i < len(c.impl) else "<missing>"
@@ -290,6 +322,32 @@ def judge(c):
             sh.set(f[1], f[2], int(f[3]), int(f[4]), int(f[5]), int(f[6]))
         elif f[0] == "del" and len(f) == 2:
             sh.delete(f[1])
+        elif f[0] == "patchc" and len(f) == 3:
+            hist.on_set(sh, f[1], 0, 0, 1)
+            want = sh.patch_create(f[1], f[2])
+            if impl != want:
+                unexplained.append((i, "`%s` answered `%s`, by the documented semantics it is `%s`" % (op, impl, want)))
+        elif f[0] == "shiftkeys" and len(f) == 2:
+            want, seen = [], set()
+            for k in f[1].split(","):
+                if k in sh.recs and k not in seen:
+                    want.append(k)
+                    seen.add(k)
+            got = [k for k in impl[2:].split(",") if k] if impl.startswith("r ") else None
+            if got != want:
+                unexplained.append((i, "`%s` handed out %s, the named records that exist are %s" % (op, got, want)))
+            for k in want:
+                sh.delete(k)
+        elif f[0] == "srelease" and impl.startswith("r "):
+            for k in [k for k in impl[2:].split(",") if k]:
+                if k in sh.recs and not (sh.recs[k]["t"] == "bytes" and held_v is not None and sh.recs[k]["v"] >= held_v):
+                    unexplained.append((i, "`srelease` handed out %s, which does not satisfy the shift's filter any more" % k))
+                sh.delete(k)            # claimed by the held shift
+            held_v = None
+            hist.claim_raced = True
+            stats["claim_races"] = stats.get("claim_races", 0) + 1
+        elif f[0] == "sheld" and len(f) == 5 and impl == "held":
+            held_v = int(f[4])
         elif f[0] == "reload":
             hist.i64_build_failed = False   # every index is gone with the swamp object
             hist.value_types_read = set()
@@ -468,6 +526,14 @@ def spec_violated(rep):
             else:
                 for k in [k for k, r in sh.recs.items() if r["expire"] != 0]:
                     sh.delete(k)
+        elif f[0] == "srelease" and impl.startswith("r "):
+            for k in [k for k in impl[2:].split(",") if k]:
+                sh.delete(k)
+        elif f[0] == "patchc" and len(f) == 3:
+            sh.patch_create(f[1], f[2])
+        elif f[0] == "shiftkeys" and len(f) == 2:
+            for k in f[1].split(","):
+                sh.delete(k)
         elif f[0] == "patch" and len(f) == 3:
             want = sh.patch(f[1], f[2])
             if i == last and impl != want:
